@@ -140,6 +140,11 @@ func (e editor) clearChoiceCase(sel *Selection, c *meta.ChoiceCase) error {
 	i := newChoiceCaseIterator(sel, c)
 	m := i.nextMeta()
 	for m != nil {
+		if i.err != nil {
+			// choosing the case of a choice further on has already failed, the list of
+			// definitions looks one ahead
+			return i.err
+		}
 		if meta.IsLeaf(m) {
 			if err := sel.ClearField(m.(meta.Leafable)); err != nil {
 				return err
